@@ -288,5 +288,6 @@ def main(chk):
 
 
 def replay(body):
-    out(body['what'])
-    return 1
+    import sys
+    import common
+    return common.replay_rerun(sys.modules[__name__], body)
